@@ -47,7 +47,8 @@ class SpecRT:
                      'old_dict', 'dict_same', 'any_mem', 'any_of', 'any_is_int', 'any_int_value', 'str_is_int_of',
                      'any_is_none', 'any_eq', 'any_same', 'returned_class', 'is_the_election', 'dict_int_values_between', 'int_value_of', 'mem_opt', 'length_opt', 'slack0',
                      'dref', 'dict_has_ref', 'dict_copy_of', 'any_is_str',
-                     'str_has', 'visited', 'snap_vote', 'dhas_in', 'dval_in'}
+                     'str_has', 'visited', 'snap_vote', 'dhas_in', 'dval_in',
+                     'ghost_at', 'top_ref', 'ghost_moved', 'ledger_on', 'ballot_value', 'no_ballot_at', 'ballots_total', 'val_times_int'}
 
     def init(self):
         self.ctx = None
